@@ -9,6 +9,8 @@ pub mod key;
 pub mod points;
 mod sm9_p256_table;
 pub mod u256;
+#[cfg(gm_rs_verif)]
+pub mod verif_hooks;
 
 /// Example:
 ///
